@@ -38,7 +38,7 @@ PROTOS = [b"h2", b"http/1.1", b"spdy/3", b"x"]
 
 
 def make_cases(ctx):
-    n = ctx.pick(1500, 60000)
+    n = ctx.pick(4000, 60000)
     for i in range(n):
         yield "p%d" % i, {"i": i}
 
@@ -114,6 +114,16 @@ def run_case(ctx, cid, P):
     except ValueError:
         ctx.count("regen_invalid")
         return
+    # the policy oracle works from what the *application* configured: the
+    # lists below are taken from the raw settings, not from the library's
+    # validated copy (which is itself code under observation)
+    for raw, val in ((cs, vcs), (ss, vss)):
+        for a in ("rsaSigHashes", "rsaSchemes", "ecdsaSigHashes",
+                  "dsaSigHashes", "more_sig_schemes", "keyExchangeNames",
+                  "psk_modes", "eccCurves", "dhGroups", "minKeySize",
+                  "maxKeySize"):
+            v = getattr(raw, a)
+            setattr(val, a, list(v) if isinstance(v, list) else v)
     fl = Flavor(kind, skey=skey, ckey=ckey, req_cert=req_cert, cset=cs,
                 sset=ss, alpn_c=alpn_c, alpn_s=alpn_s, npn_c=npn_c,
                 npn_s=npn_s, sni=sni, session_cache=cache)
@@ -332,9 +342,57 @@ def resumed_agreement(ctx, p, fl, fkey, desc):
         ctx.count("resume_source_unusable")
         return
     fl.session = sess
+    # the server's policy may have changed since the session was stored
+    # (same cache / ticket key): whatever the second connection negotiates
+    # must lie inside the settings in force *now*
+    rng = ctx.rng
+    changed = None
+    if rng.random() < 0.5 and sess.cipherSuite in suites.TABLE:
+        su0 = suites.TABLE[sess.cipherSuite]
+        import copy as _copy
+        ss2 = _copy.copy(fl.sset)
+        what = rng.choice(["cipher", "mac", "kx"])
+        if what == "cipher":
+            rest = [c for c in ss2.cipherNames if c != su0.cipher]
+            if rest:
+                ss2.cipherNames = rest
+                changed = "cipherNames"
+        elif what == "mac" and su0.mac:
+            rest = [m for m in ss2.macNames if m != su0.mac]
+            if rest:
+                ss2.macNames = rest
+                changed = "macNames"
+        elif what == "kx" and not su0.tls13:
+            rest = [k for k in ss2.keyExchangeNames if k != su0.kx_setting]
+            if rest:
+                ss2.keyExchangeNames = rest
+                changed = "keyExchangeNames"
+        if changed:
+            try:
+                ss2.validate()
+                fl.sset = ss2
+            except ValueError:
+                changed = None
     p2 = Pair()
     tc, ts = p2.handshake(fl)
     ctx.ev()
+    if changed:
+        ctx.count("second_connection_policy_changed:" + changed)
+        if tc.status == "done" and ts.status == "done":
+            su1 = suites.TABLE.get(p2.s.session.cipherSuite)
+            vs2 = fl.sset.validate()
+            for a in ("cipherNames", "macNames", "keyExchangeNames"):
+                setattr(vs2, a, list(getattr(fl.sset, a)))
+            if su1 is not None:
+                for why in policy.within(vs2, {
+                        "version": tuple(p2.s.version), "suite": su1,
+                        "ems": p2.s.extendedMasterSecret}, "server"):
+                    ctx.violation(dict(fkey, clause="outside_policy",
+                                       role="server", dim=why.split(" ")[0],
+                                       phase="second",
+                                       resumed=bool(p2.s.resumed)), desc,
+                                  "second connection (policy changed: %s): "
+                                  "%s" % (changed, why))
     if tc.status != "done" or ts.status != "done":
         ctx.count("second_connection_failed")
         ctx.cell("outcome", "second|%s|%s" % (outcome(tc), outcome(ts)))
